@@ -2,6 +2,9 @@
    trySyncNextBlock, handleEmptyDataHash), pkg/cache/cache.go (items by height, seen hashes, the
    gob files written on clean shutdown), block/manager.go (getInitialState, NewManager start-up,
    execValidate/execApplyBlock via Model/Types.v), pkg/store (state, block batch, height records).
+   Code state: after the repairs f41125c (block saved before the state), 5877669 (SyncLoop tries the loaded
+   caches at start) and 3873d52 (signer address bound to its key, in Model/Types.v).  The model of the
+   code before them is frozen in Model/SyncerOld.v.
    Both ingress paths (DA scanning block/retriever.go, P2P store polling block/store.go) only append
    events to headerInCh/dataInCh; SyncLoop consumes one event at a time, so a history is a list of
    events, clean restarts and crashes.  Definitions only; proofs are in Proofs/SyncerProofs.v. *)
